@@ -77,7 +77,7 @@ SpecStep(tt, st) ==
       a == st.a
   IN
   CASE a = "open" ->
-         LET x == CallOpen(s.fs, CfgOf(st.cfg)) IN [s |-> x.s, evs |-> x.evs, fid |-> tt.fid, fault |-> FALSE]
+         LET x == CallOpen(s, CfgOf(st.cfg)) IN [s |-> x.s, evs |-> x.evs, fid |-> tt.fid, fault |-> FALSE]
     [] a = "vote" -> LET x == CallWrite(s, "vote", [v |-> st.v]) IN [s |-> x.s, evs |-> x.evs, fid |-> tt.fid, fault |-> tt.fault]
     [] a = "commit" -> LET x == CallWrite(s, "commit", [id |-> st.id]) IN [s |-> x.s, evs |-> x.evs, fid |-> tt.fid, fault |-> tt.fault]
     [] a = "purge" -> LET x == CallWrite(s, "purge", [id |-> st.id]) IN [s |-> x.s, evs |-> x.evs, fid |-> tt.fid, fault |-> tt.fault]
@@ -93,7 +93,7 @@ SpecStep(tt, st) ==
                       [s |-> [s EXCEPT !.cache = d.cache, !.csz = d.csz], evs |-> <<>>, fid |-> tt.fid, fault |-> tt.fault]
     [] a = "reopen" ->
          LET d == CallDrop(s)
-             o == CallOpen(d.s.fs, CfgOf(st.cfg))
+             o == CallOpen(d.s, CfgOf(st.cfg))
          IN [s |-> o.s, evs |-> d.evs \o o.evs, fid |-> tt.fid, fault |-> FALSE]
     [] a = "drop" -> LET d == CallDrop(s) IN [s |-> d.s, evs |-> d.evs, fid |-> tt.fid, fault |-> FALSE]
     [] a = "crash" ->
@@ -102,7 +102,7 @@ SpecStep(tt, st) ==
                        LET c == SelectSeq(st.img, LAMBDA x : x[1] = L[j].ck) IN
                        IF c = <<>> THEN [n |-> Len(L[j].recs), tail |-> "none"]
                        ELSE [n |-> c[1][2], tail |-> IF c[1][2] >= Len(L[j].recs) THEN "none" ELSE c[1][3]]]
-         IN [s |-> [Down EXCEPT !.fs = ApplyImage(s.fs, img), !.cfg = s.cfg],
+         IN [s |-> [Down EXCEPT !.fs = ApplyImage(s.fs, img), !.cfg = s.cfg, !.inst = s.inst],
              evs |-> <<[e |-> "crash", kind |-> "power", img |-> ImgDesc(s.fs, img), seq |-> 0]>>,
              fid |-> tt.fid, fault |-> FALSE]
     [] OTHER -> \* observation-only steps (read, iter, dump, obs, drain, lock_try ...): no effect on the store
